@@ -670,6 +670,29 @@ theorem insert_fresh {tb : TBag α} (hi : TInv tb) (r : Nat) (x : α) (hr : r < 
       simpa using hfresh q hq
     rw [this]; simp
 
+/-- **tags stay unique through swap**: `tagged_bag::swap` exchanges contents and counters, so both bags keep
+the invariant — every later insert into either bag returns a tag no live item of that bag has
+(`insert_fresh`) -/
+theorem swap_inv {a b : TBag α} (ha : TInv a) (hb : TInv b) :
+    TInv (TBag.swap a b).1 ∧ TInv (TBag.swap a b).2 ∧
+    (TBag.swap a b).1.store = b.store ∧ (TBag.swap a b).2.store = a.store ∧
+    (TBag.swap a b).1.next = b.next ∧ (TBag.swap a b).2.next = a.next :=
+  ⟨hb, ha, rfl, rfl, rfl, rfl⟩
+
+/-- after a swap, an insert into the first bag returns a tag that none of its (new) items has -/
+theorem insert_fresh_after_swap {a b : TBag α} (ha : TInv a) (hb : TInv b) (r : Nat) (x : α)
+    (hr : r < b.next.length) (hs : b.next.getD r 0 + 1 < 2 ^ 40) :
+    ∀ q ∈ (TBag.swap a b).1.store, q.1 ≠ ((TBag.swap a b).1.insert r x).2 :=
+  (insert_fresh (swap_inv ha hb).1 r x hr hs).1
+
+/-- exchanging the counters is necessary: A made one insert, B three (all on rank 0); if swap forgot the
+counters, the next insert into A would return tag 1, which a live item (22) holds, and overwrite it -/
+example :
+    let a : TBag Nat := ((TBag.empty 2).insert 0 10).1
+    let b : TBag Nat := ((((TBag.empty 2).insert 0 21).1.insert 0 22).1.insert 0 23).1
+    ((TBag.swapStoreOnly a b).1.insert 0 99).2 = 1 ∧ ((TBag.swapStoreOnly a b).1.insert 0 99).1.get 1 = [99] ∧
+    ((TBag.swap a b).1.insert 0 99).2 = 3 ∧ ((TBag.swap a b).1.insert 0 99).1.get 1 = [22] := by decide
+
 theorem get_visit_other (st : List (Nat × α)) (t t' : Nat) (f : α → α) (ht : t' ≠ t) :
     ((st.map (fun p => if p.1 == t then (p.1, f p.2) else p)).filter (fun p => p.1 == t')).map (·.2) =
       (st.filter (fun p => p.1 == t')).map (·.2) := by
